@@ -69,6 +69,25 @@ pub fn byte_families(level: u32, seed: u64) -> Vec<Family> {
             (0..n).map(|i| vec![i as u8]).collect(),
         ));
     }
+    // a full first block and one state that must open the next block with a single edge whose child
+    // lands exactly on (or next to) the block boundary
+    for n in [252usize, 253, 254, 255, 256] {
+        for l in [0x00u8, 0x01, 0xff] {
+            let mut p: Vec<Vec<u8>> = (0..n).map(|i| vec![i as u8]).collect();
+            p.push(vec![0x00, l]);
+            v.push(fam(&format!("fanout_{n}+[00,{l:02x}]"), p));
+        }
+    }
+    // the same one level deeper, after two full blocks
+    for l in [0x00u8, 0xff] {
+        let mut p: Vec<Vec<u8>> = (0..254usize).map(|i| vec![i as u8]).collect();
+        for i in 0..256usize {
+            p.push(vec![0x01, i as u8]);
+        }
+        p.push(vec![0x02, l]);
+        p.push(vec![0x02, l, l]);
+        v.push(fam(&format!("fanout_254+256+[02,{l:02x},{l:02x}]"), p));
+    }
     // fan-out plus second level that has to go to the next block
     let mut f2: Vec<Vec<u8>> = (0..256usize).map(|i| vec![i as u8]).collect();
     for i in 0..256usize {
